@@ -345,6 +345,9 @@ def diagnose_missing_key(
         got: List of keys that were given by the user
         expected_type: A user-defined class we expected to get
     """
+    # keys can be anything in YAML, but only strings can be meant here
+    got = [g for g in got if isinstance(g, str)]
+
     a = '"{}"'.format(name)
     if '_' in name:
         a += ' or maybe "{}"'.format(
@@ -382,6 +385,9 @@ def diagnose_extraneous_key(
         got: List of keys that were given by the user
         expected_type: A user-defined class we expected to get
     """
+    # keys can be anything in YAML, but only strings can be meant here
+    got = [g for g in got if isinstance(g, str)]
+
     expected_msg = 'Found a key "{}", which is not allowed here.'.format(name)
 
     opt_keys = [
